@@ -52,6 +52,10 @@ func sanitize(s string) string {
 
 // build compiles the test binary for a package dir (once).
 func (r *Replayer) build(pkgDir string, instrumented bool) (string, error) {
+	return r.buildOpt(pkgDir, instrumented, false)
+}
+
+func (r *Replayer) buildOpt(pkgDir string, instrumented bool, race bool) (string, error) {
 	if r.bins == nil {
 		r.bins = map[string]string{}
 		r.binErr = map[string]error{}
@@ -59,6 +63,9 @@ func (r *Replayer) build(pkgDir string, instrumented bool) (string, error) {
 	key := pkgDir
 	if instrumented {
 		key += "#instr"
+	}
+	if race {
+		key += "#race"
 	}
 	if b, ok := r.bins[key]; ok {
 		return b, r.binErr[key]
@@ -121,9 +128,14 @@ func (r *Replayer) build(pkgDir string, instrumented bool) (string, error) {
 	b, _ := json.Marshal(ov)
 	os.WriteFile(ovPath, b, 0o644)
 	bin := filepath.Join(wd, sanitize(key)+".test")
-	cmd := exec.Command("go", "test", "-c", "-tags", "verif,unit", "-vet=off", "-overlay", ovPath, "-o", bin, "./"+pkgDir)
+	args := []string{"test", "-c", "-tags", "verif,unit", "-vet=off", "-overlay", ovPath, "-o", bin}
+	if race {
+		args = append(args, "-race")
+	}
+	args = append(args, "./"+pkgDir)
+	cmd := exec.Command("go", args...)
 	cmd.Dir = r.repo
-	cmd.Env = append(os.Environ(), "GOFLAGS=-mod=mod", "GOPROXY=off", "GOSUMDB=off", "GOTOOLCHAIN=local")
+	cmd.Env = append(os.Environ(), "GOFLAGS=-mod=mod", "GOPROXY=off", "GOSUMDB=off", "GOTOOLCHAIN=local", "CGO_ENABLED=1")
 	out, err := cmd.CombinedOutput()
 	if err != nil {
 		err = fmt.Errorf("go test -c failed: %v\n%s", err, truncate(string(out), 3000))
@@ -172,7 +184,7 @@ func (r *Replayer) Replay(h *Harness, f *Finding, tag string) (*ReplayOutcome, e
 		return nil, fmt.Errorf("native replay disabled for this harness")
 	}
 	instrumented := h.Threads > 1 && len(f.Schedule) > 0
-	bin, err := r.build(h.PkgDir, instrumented)
+	bin, err := r.buildOpt(h.PkgDir, instrumented, f.Kind == "race")
 	if err != nil {
 		return nil, err
 	}
